@@ -29,3 +29,39 @@ PROPS = {
                                      "float oracle is Rust's `as` conversion (IEEE round-to-nearest) evaluated by the harness"],
     ),
 }
+
+STD_BOUNDS = ("payloads through the arena value source with a FIXED skeleton per harness and symbolic contents: root leaf; root sequence of "
+              "1..3 leaves; sequence of two sequences of 1..2 leaves; [leaf, sequence of 2]; root object of 1..3 members with symbolic, "
+              "pairwise distinct keys over the type's candidate table (effective keys, raw identifiers, case variants, near-misses, alien) "
+              "and symbolic leaf values. Leaves: kind symbolic over {null,bool,integer,negative integer,float,string}, u64/i64/f64 full width, "
+              "strings over the harness table (<= 8 strings). At most 6 reports and 10 decisions per run (asserted, a larger run is reported as "
+              "inconclusive). unwind 12 with unwinding assertions.")
+STD_OUT = ("payloads larger or deeper than the skeletons; strings outside the tables; message text (alloc::fmt::format stubbed); "
+           "user-written Deserr impls; derive inputs outside the catalogue; serde_json as the value source (C13)")
+STD_ASSUME = COMMON_ASSUME + ["stub: alloc::fmt::format returns an empty String (message text not observed)",
+                              "object keys pairwise distinct (duplicate keys only in the C12 harnesses)",
+                              "the recording error type keeps what it is handed (by construction: a Rec is the set of report ids it was built from)"]
+CAT = "catalogue of 12 hand-written derive inputs (S1..S6, C1, C2, E1..E3, N1) covering rename/rename_all/default/skip/deny_unknown_fields/missing_field_error/try_from/from/map/validate/error=/tag/unit enums"
+
+def _p(select, tags, bounds=STD_BOUNDS, outside=STD_OUT, assumptions=STD_ASSUME, **kw):
+    d = dict(select=select, tags=tags, bounds=bounds, outside=outside, assumptions=assumptions, cap_quick=2400, cap_thorough=7200)
+    d.update(kw)
+    return d
+
+PROPS.update({
+    "C01": _p([r"^c01_"], ["C01:"], bounds=STD_BOUNDS + " Answer script: all 2^10 Continue/Break sequences (symbolic). " + CAT),
+    "C02": _p([r"^c02_"], ["C02:"], bounds=STD_BOUNDS + " Answer script: all-Continue. Oracle: type-directed reference model. " + CAT),
+    "C03": _p([r"^c03_"], ["C03:"], bounds=STD_BOUNDS + " Answer script: Continue^k Break^inf for symbolic k in 0..10, then the keep-going run of the same payload. " + CAT),
+    "C04": _p([r"^c04_"], ["C04:"], bounds=STD_BOUNDS + " Answer script free. Locations decoded up to depth 3 and resolved in the arena inside the error type. " + CAT),
+    "C06": _p([r"^c06_", r"^c02_[qt]_(vec|arr|tup|opt|box)"], ["C06:"]),
+    "C07": _p([r"^c02_[qt]_(s1|s2|e1|e2|n1)_"], ["C07:"], bounds=STD_BOUNDS + " " + CAT),
+    "C08": _p([r"^c02_[qt]_(s1|s2|s3|s4|s6|e1|e2)_"], ["C08:"], bounds=STD_BOUNDS + " " + CAT),
+    "C09": _p([r"^c02_[qt]_(s1|s2|s3|e1|n1)_"], ["C09:"], bounds=STD_BOUNDS + " " + CAT),
+    "C10": _p([r"^c02_[qt]_(e1|e2|e3)_"], ["C10:"], bounds=STD_BOUNDS + " " + CAT),
+    "C11": _p([r"^c02_[qt]_(s4|s5|s6|c1|c2)_"], ["C11:"], bounds=STD_BOUNDS + " User-function outcomes (try_from / validate fail or succeed) symbolic. " + CAT),
+    "C12": _p([r"^c12_", r"^c01_"], [], panics=True, bounds=STD_BOUNDS + " Every reachable panic!, unwrap, index, arithmetic-overflow and pointer check of the compiled code is a proof obligation. " + CAT),
+})
+PROPS["C05"]["tags"] = ["C05:"]
+PROPS["C19"]["tags"] = ["C19:"]
+
+PROPS["C16"] = dict(engine="mir")
